@@ -416,13 +416,15 @@ class EvolveDensityMatrix:
         def op(x: torch.Tensor) -> torch.Tensor:
             return -1j * dt * (ham @ x)
 
-        return (
-            krylov_exp(
-                op,
-                density_matrix,
-                norm_tolerance=krylov_tolerance,
-                exp_tolerance=krylov_tolerance,
-                is_hermitian=False,
-            ),
-            ham,
+        evolved = krylov_exp(
+            op,
+            density_matrix,
+            norm_tolerance=krylov_tolerance,
+            exp_tolerance=krylov_tolerance,
+            is_hermitian=False,
         )
+        # The Lindbladian is applied as X - X†, which is the generator for Hermitian X
+        # only: the anti-Hermitian rounding noise follows a different equation that grows
+        # exponentially for generic jump operators. Remove it after every step.
+        evolved = 0.5 * (evolved + evolved.mH)
+        return evolved, ham
